@@ -278,8 +278,10 @@ pub fn run_registration_of<const N: usize>(tkind: crate::drivers::TKind, pre: us
     for _ in 0..pre {
         keep.push(<LabHal as virtio_drivers::Hal>::dma_alloc(1, virtio_drivers::BufferDirection::Both, false));
     }
-    // (A device with two queues.)
+    // (A device with two queues, whose maximum queue size is at least the requested size.)
+    crate::drivers::MAX_QUEUE_SIZE.with(|m| m.set(64.max(N as u32)));
     let w = crate::drivers::DWorld::new(crate::drivers::Kind::Console, tkind, crate::drivers::F_VERSION_1, crate::drivers::Kind::Console.default_config());
+    crate::drivers::MAX_QUEUE_SIZE.with(|m| m.set(64));
     let mut v = w.with_transport(VReg::<N> { bits: bits | ((pre as u8) << 4), qidx, twice });
     for (k, d) in hal::with(|h| std::mem::take(&mut h.faults)) {
         v.push((k, d));
@@ -287,6 +289,62 @@ pub fn run_registration_of<const N: usize>(tkind: crate::drivers::TKind, pre: us
     for (p, va) in keep {
         // SAFETY: allocated above with the same arguments.
         unsafe { <LabHal as virtio_drivers::Hal>::dma_dealloc(p, va, 1, false) };
+    }
+    crate::mmio::set_handler(None);
+    v
+}
+
+/// The transport reports `max` as the queue's maximum size (also values that are not powers of
+/// two): creation of a queue of N entries succeeds iff max >= N, and a refusal allocates and
+/// registers nothing.
+pub fn run_refusal<const N: usize>(tkind: crate::drivers::TKind, max: u32) -> Vec<(String, String)> {
+    struct VR<const N: usize> {
+        max: u32,
+    }
+    impl<const N: usize> crate::drivers::TransportVisitor for VR<N> {
+        type Out = Vec<(String, String)>;
+        fn visit<T: virtio_drivers::transport::Transport + 'static>(self, mut t: T, w: &crate::drivers::DWorld) -> Self::Out {
+            let mut v = vec![];
+            let _ = t.begin_init(crate::c10::LabFeatures::all());
+            let allocs_before = hal::with(|h| h.dma_calls);
+            let r = crate::util::catch(|| VirtQueue::<LabHal, N>::new(&mut t, 0, false, false, false));
+            let allocs = hal::with(|h| h.dma_calls) - allocs_before;
+            let registered = w.dev.borrow().queue_addrs(0).is_some();
+            match r {
+                Err(p) => v.push(("new-panicked".into(), p)),
+                Ok(Ok(q)) => {
+                    if self.max < N as u32 {
+                        v.push(("not-refused".into(), format!("a queue of {} entries was created on {} although the device's maximum for it is {}", N, w.tkind.name(), self.max)));
+                    }
+                    t.queue_unset(0);
+                    drop(q);
+                }
+                Ok(Err(e)) => {
+                    if self.max >= N as u32 {
+                        v.push(("spurious-refusal".into(), format!("a queue of {} entries was refused ({:?}) on {} although the device's maximum is {}", N, e, w.tkind.name(), self.max)));
+                    } else {
+                        if e != Error::InvalidParam {
+                            v.push(("wrong-refusal".into(), format!("refused with {:?}, expected InvalidParam (max {} < {})", e, self.max, N)));
+                        }
+                        if allocs != 0 {
+                            v.push(("refusal-allocated".into(), format!("the refused creation made {} dma_alloc calls", allocs)));
+                        }
+                        if registered {
+                            v.push(("refusal-registered".into(), "the refused creation left the queue registered in the device".into()));
+                        }
+                    }
+                }
+            }
+            v
+        }
+    }
+    hal::reset();
+    crate::drivers::MAX_QUEUE_SIZE.with(|m| m.set(max));
+    let w = crate::drivers::DWorld::new(crate::drivers::Kind::Rng, tkind, crate::drivers::F_VERSION_1, vec![]);
+    crate::drivers::MAX_QUEUE_SIZE.with(|m| m.set(64));
+    let mut v = w.with_transport(VR::<N> { max });
+    for (k, d) in hal::with(|h| std::mem::take(&mut h.faults)) {
+        v.push((k, d));
     }
     crate::mmio::set_handler(None);
     v
